@@ -179,6 +179,17 @@ claim("C15", "symx",
       "reals not floats (A1); margins on orientation products; one free vertex; qhull verdict = exact hull stub",
       "DESIGN.md §6 C15")
 
+claim("C17", "symx+z3",
+      "symbolic execution of make_vertices with free family parameters vs exact plane-triple enumeration (QF_LRA); z3-enumerated rational grid through the real constructor; exact algebraic evaluation of the n-gon families",
+      "TruncationPlaneShapeFamily.make_vertices with a and c free reals (323+), one free parameter along lines (423) and a free truncation (truncated "
+      "tetrahedron): on every parameter cell reached, the returned vertex set equals the harness's own exact enumeration over all plane triples (conditioned "
+      "on the exact vertices being 1e-3 apart). get_shape through the real constructor on rational grids incl. edges and corners (grid index enumerated by "
+      "z3): vertex set, V-E+F and facet count against the exact intersection. Domain guards with free parameters. RegularNGonFamily and the uniform prism / "
+      "antiprism / pyramid / dipyramid families for n with closed-form trigonometry (exact algebraic arithmetic): unit area/volume, first vertex on +x, "
+      "centred, equal edges, counts.",
+      "reals not floats (A1: thresholds / round(6) exact); Family523 geometry not applicable (guards only); n in {3,4,5,6,8,10,12}; path budget on cells",
+      "DESIGN.md §6 C17")
+
 ALL = ["C%02d" % i for i in range(1, 21)]
 
 
